@@ -255,9 +255,11 @@ impl NativeFunctionCompiler for MatrixAssignScalar {
     match impl_assign_scalar_fxn(sink.clone(),source.clone(),ixes.clone()) {
       Ok(fxn) => Ok(fxn),
       Err(x) => {
-        match sink {
-          Value::MutableReference(sink) => { impl_assign_scalar_fxn(sink.borrow().clone(),source.clone(),ixes.clone()) }
-          sink => Err(MechError::new(
+        match (sink, source.clone()) {
+          (Value::MutableReference(sink), Value::MutableReference(source)) => { impl_assign_scalar_fxn(sink.borrow().clone(),source.borrow().clone(),ixes.clone()) }
+          (sink, Value::MutableReference(source)) => { impl_assign_scalar_fxn(sink.clone(),source.borrow().clone(),ixes.clone()) }
+          (Value::MutableReference(sink), _) => { impl_assign_scalar_fxn(sink.borrow().clone(),source.clone(),ixes.clone()) }
+          (sink, _) => Err(MechError::new(
               UnhandledFunctionArgumentIxes { arg: (sink.kind(), ixes.iter().map(|v| v.kind()).collect::<Vec<_>>(), source.kind()), fxn_name: "matrix/assign-scalar".to_string() },
               None
             ).with_compiler_loc()
@@ -470,8 +472,10 @@ impl NativeFunctionCompiler for MatrixAssignAll {
     match impl_assign_all_fxn(sink.clone(),source.clone(),ixes.clone()) {
       Ok(fxn) => Ok(fxn),
       Err(_) => {
-        match sink {
-          Value::MutableReference(sink) => { impl_assign_all_fxn(sink.borrow().clone(),source.clone(),ixes.clone()) }
+        match (sink.clone(), source.clone()) {
+          (Value::MutableReference(sink), Value::MutableReference(source)) => { impl_assign_all_fxn(sink.borrow().clone(),source.borrow().clone(),ixes.clone()) }
+          (sink, Value::MutableReference(source)) => { impl_assign_all_fxn(sink.clone(),source.borrow().clone(),ixes.clone()) }
+          (Value::MutableReference(sink), _) => { impl_assign_all_fxn(sink.borrow().clone(),source.clone(),ixes.clone()) }
           _ => Err(MechError::new(UnhandledFunctionArgumentIxes { arg: (sink.kind(), ixes.iter().map(|v| v.kind()).collect::<Vec<_>>(), source.kind()), fxn_name: "MatrixAssignAll".to_string() }, None).with_compiler_loc()),
         }
       }
@@ -576,8 +580,10 @@ impl NativeFunctionCompiler for MatrixAssignScalarScalar {
     match impl_assign_scalar_scalar_fxn(sink.clone(),source.clone(),ixes.clone()) {
       Ok(fxn) => Ok(fxn),
       Err(_) => {
-        match sink {
-          Value::MutableReference(sink) => { impl_assign_scalar_scalar_fxn(sink.borrow().clone(),source.clone(),ixes.clone()) }
+        match (sink.clone(), source.clone()) {
+          (Value::MutableReference(sink), Value::MutableReference(source)) => { impl_assign_scalar_scalar_fxn(sink.borrow().clone(),source.borrow().clone(),ixes.clone()) }
+          (sink, Value::MutableReference(source)) => { impl_assign_scalar_scalar_fxn(sink.clone(),source.borrow().clone(),ixes.clone()) }
+          (Value::MutableReference(sink), _) => { impl_assign_scalar_scalar_fxn(sink.borrow().clone(),source.clone(),ixes.clone()) }
           _ => Err(MechError::new(UnhandledFunctionArgumentIxes { arg: (sink.kind(), ixes.iter().map(|v| v.kind()).collect::<Vec<_>>(), source.kind()), fxn_name: "MatrixAssignScalarScalar".to_string() }, None).with_compiler_loc()),
         }
       }
@@ -705,9 +711,11 @@ impl NativeFunctionCompiler for MatrixAssignAllScalar {
     match impl_assign_all_scalar_fxn(sink.clone(),source.clone(),ixes.clone()) {
       Ok(fxn) => Ok(fxn),
       Err(x) => {
-        match sink {
-          Value::MutableReference(sink) => { impl_assign_all_scalar_fxn(sink.borrow().clone(),source.clone(),ixes.clone()) }
-          sink => Err(MechError::new(UnhandledFunctionArgumentIxes { arg: (sink.kind(), ixes.iter().map(|v| v.kind()).collect::<Vec<_>>(), source.kind()), fxn_name: "MatrixAssignRangeScalar".to_string() }, None).with_compiler_loc()),
+        match (sink, source.clone()) {
+          (Value::MutableReference(sink), Value::MutableReference(source)) => { impl_assign_all_scalar_fxn(sink.borrow().clone(),source.borrow().clone(),ixes.clone()) }
+          (sink, Value::MutableReference(source)) => { impl_assign_all_scalar_fxn(sink.clone(),source.borrow().clone(),ixes.clone()) }
+          (Value::MutableReference(sink), _) => { impl_assign_all_scalar_fxn(sink.borrow().clone(),source.clone(),ixes.clone()) }
+          (sink, _) => Err(MechError::new(UnhandledFunctionArgumentIxes { arg: (sink.kind(), ixes.iter().map(|v| v.kind()).collect::<Vec<_>>(), source.kind()), fxn_name: "MatrixAssignRangeScalar".to_string() }, None).with_compiler_loc()),
         }
       }
     }
@@ -766,8 +774,10 @@ impl NativeFunctionCompiler for MatrixAssignScalarAll {
     match impl_assign_scalar_all_fxn(sink.clone(),source.clone(),ixes.clone()) {
       Ok(fxn) => Ok(fxn),
       Err(_) => {
-        match sink {
-          Value::MutableReference(sink) => { impl_assign_scalar_all_fxn(sink.borrow().clone(),source.clone(),ixes.clone()) }
+        match (sink.clone(), source.clone()) {
+          (Value::MutableReference(sink), Value::MutableReference(source)) => { impl_assign_scalar_all_fxn(sink.borrow().clone(),source.borrow().clone(),ixes.clone()) }
+          (sink, Value::MutableReference(source)) => { impl_assign_scalar_all_fxn(sink.clone(),source.borrow().clone(),ixes.clone()) }
+          (Value::MutableReference(sink), _) => { impl_assign_scalar_all_fxn(sink.borrow().clone(),source.clone(),ixes.clone()) }
           _ => Err(MechError::new(UnhandledFunctionArgumentIxes { arg: (sink.kind(), ixes.iter().map(|v| v.kind()).collect::<Vec<_>>(), source.kind()), fxn_name: "MatrixAssignRangeScalar".to_string() }, None).with_compiler_loc()),
         }
       }
@@ -1019,8 +1029,10 @@ impl NativeFunctionCompiler for MatrixAssignRangeScalar {
     match impl_assign_range_scalar_fxn(sink.clone(),source.clone(),ixes.clone()) {
       Ok(fxn) => Ok(fxn),
       Err(_) => {
-        match sink {
-          Value::MutableReference(sink) => { impl_assign_range_scalar_fxn(sink.borrow().clone(),source.clone(),ixes.clone()) }
+        match (sink.clone(), source.clone()) {
+          (Value::MutableReference(sink), Value::MutableReference(source)) => { impl_assign_range_scalar_fxn(sink.borrow().clone(),source.borrow().clone(),ixes.clone()) }
+          (sink, Value::MutableReference(source)) => { impl_assign_range_scalar_fxn(sink.clone(),source.borrow().clone(),ixes.clone()) }
+          (Value::MutableReference(sink), _) => { impl_assign_range_scalar_fxn(sink.borrow().clone(),source.clone(),ixes.clone()) }
           _ => Err(MechError::new(UnhandledFunctionArgumentIxes { arg: (sink.kind(), ixes.iter().map(|v| v.kind()).collect::<Vec<_>>(), source.kind()), fxn_name: "MatrixAssignRangeScalar".to_string() }, None).with_compiler_loc()),
         }
       }
@@ -1267,8 +1279,10 @@ impl NativeFunctionCompiler for MatrixAssignScalarRange {
     match impl_assign_scalar_range_fxn(sink.clone(),source.clone(),ixes.clone()) {
       Ok(fxn) => Ok(fxn),
       Err(_) => {
-        match sink {
-          Value::MutableReference(sink) => { impl_assign_scalar_range_fxn(sink.borrow().clone(),source.clone(),ixes.clone()) }
+        match (sink.clone(), source.clone()) {
+          (Value::MutableReference(sink), Value::MutableReference(source)) => { impl_assign_scalar_range_fxn(sink.borrow().clone(),source.borrow().clone(),ixes.clone()) }
+          (sink, Value::MutableReference(source)) => { impl_assign_scalar_range_fxn(sink.clone(),source.borrow().clone(),ixes.clone()) }
+          (Value::MutableReference(sink), _) => { impl_assign_scalar_range_fxn(sink.borrow().clone(),source.clone(),ixes.clone()) }
           _ => Err(MechError::new(
             UnhandledFunctionArgumentIxes { arg: (sink.kind(), ixes.iter().map(|v| v.kind()).collect::<Vec<_>>(), source.kind()), fxn_name: "MatrixAssignScalarRange".to_string() }, None).with_compiler_loc() ),
         }
@@ -1542,8 +1556,10 @@ impl NativeFunctionCompiler for MatrixAssignRangeRange {
     match impl_assign_range_range_fxn(sink.clone(),source.clone(),ixes.clone()) {
       Ok(fxn) => Ok(fxn),
       Err(_) => {
-        match sink {
-          Value::MutableReference(sink) => { impl_assign_range_range_fxn(sink.borrow().clone(),source.clone(),ixes.clone()) }
+        match (sink.clone(), source.clone()) {
+          (Value::MutableReference(sink), Value::MutableReference(source)) => { impl_assign_range_range_fxn(sink.borrow().clone(),source.borrow().clone(),ixes.clone()) }
+          (sink, Value::MutableReference(source)) => { impl_assign_range_range_fxn(sink.clone(),source.borrow().clone(),ixes.clone()) }
+          (Value::MutableReference(sink), _) => { impl_assign_range_range_fxn(sink.borrow().clone(),source.clone(),ixes.clone()) }
           _ => Err(MechError::new(
               UnhandledFunctionArgumentIxes { arg: (sink.kind(), ixes.iter().map(|v| v.kind()).collect::<Vec<_>>(), source.kind()), fxn_name: "matrix/assign-range".to_string() },
               None
